@@ -139,9 +139,24 @@ func (fr *FileReader) readNextBlock() (*Block, error) {
 	if err := blockHeader.Deserialize(headerBuf); err != nil {
 		return nil, err
 	}
+	// A block whose data is not completely present in the file is a torn tail: the process
+	// died (or the disk filled up) in the middle of the last block write. It is the end of
+	// the readable data, not a reason to lose the whole swamp. Checking the size against the
+	// bytes that are really left in the file also keeps a damaged size field from making us
+	// allocate memory out of proportion to the file.
+	info, err := fr.file.Stat()
+	if err != nil {
+		return nil, err
+	}
+	if int64(blockHeader.CompressedSize) > info.Size()-offset-BlockHeaderSize {
+		return nil, io.EOF
+	}
 	// Read compressed data
 	compressedData := make([]byte, blockHeader.CompressedSize)
 	if _, err := io.ReadFull(fr.file, compressedData); err != nil {
+		if errors.Is(err, io.ErrUnexpectedEOF) {
+			return nil, io.EOF
+		}
 		return nil, err
 	}
 	// Parse block
